@@ -85,6 +85,11 @@ func (mp MerkleProof) Validate(height int64, root HashRange, leaf Proof, numOfLe
 		if !sibling.isValidRange() {
 			return false, true
 		}
+		// the parent hash is computed over a fixed-size buffer: a longer sibling hash would
+		// spill into (and stand in for) the fields that follow it
+		if len(sibling.Hash) != MerkleHashLength {
+			return
+		}
 		if mp.TargetIndex%2 == 1 { // odd target index
 			// target lower should be GTE sibling upper
 			if mp.Target.Range.Lower != sibling.Range.Upper {
